@@ -290,6 +290,8 @@ P_C08_RoleRestrictedSends ==
 \* C09: watermarks have the right parity; the next id is above everything used and of the own parity
 P_C09_IdsIncreaseWithParity ==
   \A x \in Roles : LET ep == eps[x] IN
+     ("stream_id_above_max" \notin ep.dev) =>          \* (known finding: ids of 2^31 and more are accepted)
+     /\ ep.hiOut >= 0 /\ ep.hiIn >= 0 /\ \A sid \in DOMAIN ep.streams : sid > 0        \* no id above 2^31-1
      /\ ep.hiOut # 0 => ep.hiOut % 2 = MyParity(ep)
      /\ ep.hiIn # 0 => ep.hiIn % 2 = 1 - MyParity(ep)
      /\ LET n == NextStreamId(ep) IN n = -1 \/ (n > ep.hiOut /\ n % 2 = MyParity(ep))
